@@ -144,7 +144,7 @@ PROPS = {
         lean_modules=["Liftbridge.Props.C17", "Liftbridge.Props.C17Pipe", "Liftbridge.Props.GoSeal"],
         # Props.C17 = the codec (Seal/Read framing); Props.C17Pipe = what partition.go does with it (every ingest / deliver site, regenerated)
         gen_sources=["server/encryption/localkey_handler.go", "server/partition.go#seal-pipeline"],
-        runs=[dict(go_pkg="./server/encryption", test="TestVerifC17"), dict(go_pkg="./server", test="TestVerifC17Pipe"), dict(go_pkg="./server", test="TestVerifC17Overrides")],
+        runs=[dict(go_pkg="./server/encryption", test="TestVerifC17"), dict(go_pkg="./server", test="TestVerifC17Pipe"), dict(go_pkg="./server", test="TestVerifC17Overrides"), dict(go_pkg="./server", test="TestVerifC17Lifecycle")],
         timeout={"quick": 600, "thorough": 5400},
         level="proof",
         assumptions=[
